@@ -68,6 +68,12 @@ def cases(tier, seed):
                                 for route in ("set_params", "attribute", "clone"):
                                     yield dict(kind="blockmean", layout=[2, 2], sites=ms, order=order, ncomp=ncomp, w=w, unc=unc,
                                                region=region, center=center, route=route)
+                            if region == "given" and ncomp <= 2:
+                                # other ways of defining the same blocks: a shape, a spacing that does not divide the region with either
+                                # adjustment (mutation survivor: the adjust keyword dropped from BlockMean's block_split call)
+                                for block in ("shape", "spacing_nd_s", "spacing_nd_r"):
+                                    yield dict(kind="blockmean", layout=[2, 2], sites=ms, order=order, ncomp=ncomp, w=w, unc=unc,
+                                               region=region, center=center, block=block)
                             if ncomp == 1 and not center and region == "given":
                                 # non-dyadic data on a large base level (gravity-like 978000.x): exposes cancellation in one-pass variance
                                 # formulas (seed C10-r2_2); compared at 1e-6 relative with the exact rational result
@@ -165,6 +171,16 @@ def run(case, rec):
     if rep == "int_e":
         e, n = e * 4.0, n * 4.0   # integer-valued easting with an integer dtype next to a float northing
     kw = dict(spacing=1.0 * sc, center_coordinates=case["center"], uncertainty=case["unc"])
+    csize = 1.0 * sc
+    block = case.get("block", "spacing")
+    if block == "shape":
+        del kw["spacing"]
+        kw["shape"] = (2, 2)
+    elif block in ("spacing_nd_s", "spacing_nd_r"):
+        kw["spacing"] = 0.9 * sc
+        kw["adjust"] = "spacing" if block.endswith("_s") else "region"
+        if kw["adjust"] == "region":
+            csize = 0.9 * sc
     if case["region"] == "given":
         kw["region"] = (0.0, 2.0 * sc, 0.0, 2.0 * sc)
     d_arg = data[0] if ncomp == 1 else tuple(data)
@@ -230,7 +246,8 @@ def run(case, rec):
             want = B.reduce_exact("average", [data[c][i] for i in mem], wv)
             rec.check(B.close(gm[c][k], want), "block %d component %d: mean %r != %r" % (b, c, float(gm[c][k]), float(want)))
         if case["center"]:
-            rec.check(float(gc[0][k]) == ((b % 2) + 0.5) * sc and float(gc[1][k]) == ((b // 2) + 0.5) * sc, "block %d: wrong centre" % b)
+            rec.check(abs(float(gc[0][k]) - ((b % 2) + 0.5) * csize) <= 4e-16 * sc and abs(float(gc[1][k]) - ((b // 2) + 0.5) * csize) <= 4e-16 * sc,
+                      "block %d: wrong centre (%r, %r), block size %r" % (b, float(gc[0][k]), float(gc[1][k]), csize))
         else:
             rec.check(B.close(gc[0][k], B.reduce_exact("mean", [e[i] for i in mem])) and B.close(gc[1][k], B.reduce_exact("mean", [n[i] for i in mem])),
                       "block %d: coordinates are not the mean of its members" % b)
